@@ -664,6 +664,49 @@ pub fn all_families(cfg: &FamCfg, sink: &mut Sink) {
         }
     }
 
+    // ---- INVOKE of a method with 0 / 6 / 12 parameters: the object is invoked from a register or
+    // from a spill slot (the jump into the method table is computed in a temporary) -------------
+    for k in [0usize, 2] {
+        for m in [0usize, 1, 3] {
+            for (method, nargs) in [("wa", 0usize), ("wb", 6), ("wc", 12)] {
+                if nargs + 3 > cfg.cap {
+                    continue;
+                }
+                sink.offer(|| {
+                    let mut b = prelude(t, k, Pat::Alt, 2);
+                    let envv: Vec<V> = (0..m).map(|f| b.lit(600 + f as i64)).collect();
+                    let o = b.create(t, "Wide", &envv, |mname, mut mb, ps, es| {
+                        let k = *ps.last().unwrap();
+                        let mut acc = mb.lit(mname.as_bytes()[1] as i64 * 1000);
+                        let ints: Vec<V> = ps[..ps.len() - 1].iter().chain(es.iter()).copied().collect();
+                        for v in ints {
+                            let t2 = mb.op(acc, BinOp::Sum, acc);
+                            let keep: Vec<V> = mb.ids().into_iter().filter(|x| *x != acc).collect();
+                            mb.arrange(&keep);
+                            let n = mb.op(t2, BinOp::Sum, v);
+                            let keep: Vec<V> = mb.ids().into_iter().filter(|x| *x != t2 && *x != v).collect();
+                            mb.arrange(&keep);
+                            acc = n;
+                        }
+                        mb.invoke(t, k, "Ret", &[acc])
+                    });
+                    let rest: Vec<V> = b.ids().into_iter().filter(|x| *x != o).collect();
+                    let kont = b.create(t, "_Cont", &rest, |_, mb, ps, _| {
+                        let mut mb = mb;
+                        if wp {
+                            mb.print(ps[0], false);
+                        }
+                        epilogue(t, mb, wp)
+                    });
+                    let mut args: Vec<V> = (0..nargs).map(|i| b.lit(31 + i as i64)).collect();
+                    args.push(kont);
+                    let stmt = b.invoke(t, o, method, &args);
+                    case(format!("wideinvoke/k{k}/env{m}/{method}"), t, stmt, vec![], 2, vec![8, 9], wp)
+                });
+            }
+        }
+    }
+
     // ---- PRINT with 0..22 live variables (C13) x kind patterns x printed position --------------
     if wp {
         let ks: Vec<usize> = if cfg.thorough { (1..=22).collect() } else { vec![1, 2, 3, 4, 5, 6, 7, 8, 11, 12, 13, 14, 15, 20] };
